@@ -225,6 +225,25 @@ def run(chk):
             continue
         for _ in check_exactly_once(chk, font, cfg, fmt, srcs, f"random {k}", replay):
             pass
+    # coincidence-seeking: axis-aligned copies on an integer lattice, so that reused shapes are placed through
+    # PaintScale[Uniform][AroundCenter] / PaintTranslate (their gettransform() is what glyf / COLRv0 use to place a copy)
+    for k in range(36 if quick else 600):
+        r = common.rng("C03", "lattice", k)
+        glyphs = S.lattice_scenario(r)
+        fmt = ["glyf", "glyf_colr_0", "cff_colr_0", "cff2_colr_0"][k % 4]
+        kw = dict(S.LATTICE_CONFIG)   # 10 font units per lattice unit: quantisation stays far below the overlap criterion
+        cfg = build.base_config(color_format=fmt, keep_glyph_names=True, clip_to_viewbox=False, reuse_tolerance=0.1, **kw)
+        srcs = CC.sources_from(glyphs)
+        replay = {"kind": "lattice", "seed": [chk.seed, k], "format": fmt, "config": kw, "svgs": [s.svg_text for s in srcs]}
+        chk.case(key=("lattice", k), nontrivial=True)
+        chk.traces_validated += 1
+        try:
+            _, font = build.build(cfg, srcs, already_pico=True)
+        except Exception as e:
+            chk.violation(f"valid sources fail to build ({fmt}): {type(e).__name__}: {str(e)[:160]}", replay)
+            continue
+        for _ in check_exactly_once(chk, font, cfg, fmt, srcs, f"lattice {k}", replay):
+            pass
     chk.assumptions += ["a layer 'places' a source outline when their sampled overlap is >= 60% (one-to-one matching)"]
 
 
